@@ -146,6 +146,7 @@ class AudioSim(AoefSim):
             "resample": self.do_derive,
             "spectrogram": self.do_derive,
             "scribble": self.do_scribble,
+            "recheck": self.do_recheck,
         }.get(kind)
         if handler is None:
             return super()._apply(op)
@@ -438,6 +439,7 @@ class AudioSim(AoefSim):
             "first": float(tvals[0]) if n else None,
             "step": reply["coords"]["time"]["step"], "n": n,
             "offset": o, "rec": op["r"], "data": data,
+            "fp": self._fingerprint(reply),
         }
         # frame i equals the same frame of load_recording (where both exist)
         whole = rec.get("whole")
@@ -505,8 +507,41 @@ class AudioSim(AoefSim):
         self.arrays[op["h"]] = {
             "node": op["node"], "alive": True, "kind": "recording",
             "first": 0.0 if shape[0] else None, "step": entry["step"],
-            "n": shape[0],
+            "n": shape[0], "fp": self._fingerprint(reply),
         }
+
+    def do_recheck(self, op):
+        """An array an earlier call returned is looked at again after other
+        library calls used it as input: its axis must still tell the truth and
+        it must still be the array that was returned."""
+        src = self.arrays.get(op["src"])
+        if src is None or not src["alive"] or src.get("scribbled"):
+            return self.record(op, "skipped")
+        node = self.node(src["node"])
+        reply = node.call("a_again", handle=op["src"], _env=self.env_audio(None))
+        if reply["outcome"] != "value":
+            return self.record(op, "skipped")
+        entry = reply["coords"]["time"]
+        fp = self._fingerprint(reply)
+        self.record(op, "value", same=(fp == src.get("fp")))
+        self.trace.append(("recheck", src["kind"], fp == src.get("fp")))
+        self.checked_arrays += 1
+        self.probes.hit("C15:earlier-array-rechecked")
+        self.axis(f"{src['kind']}-later", "time", entry, src["first"])
+        if src.get("fp") is not None and fp != src["fp"]:
+            self.violate(
+                "C15", f"C15:array-changed-after-the-fact:{src['kind']}",
+                f"the {src['kind']} array returned earlier now has step "
+                f"{entry['step']!r} / different coordinates or samples, "
+                f"although the caller never modified it",
+            )
+
+    @staticmethod
+    def _fingerprint(reply):
+        entry = reply["coords"].get("time", {})
+        return sha(jdump([entry.get("step"), entry.get("values"),
+                          reply.get("data") if "data" in reply else None,
+                          reply.get("shape")]))
 
     def do_scribble(self, op):
         """A caller normalises / overwrites in place what an earlier call
@@ -519,6 +554,7 @@ class AudioSim(AoefSim):
         self.record(op, reply["outcome"])
         self.trace.append(("scribble", src["kind"], reply["outcome"]))
         if reply["outcome"] == "ack":
+            src["scribbled"] = True
             self.probes.hit("C15:returned-array-modified-in-place")
             for rec in self.recs.values():
                 whole = rec.get("whole")
@@ -769,6 +805,12 @@ def gen_ops(rng, cfg, seed_tag):
             d = derive(src, rec_sr, max_window=max(4, length // 2))
             if rng.random() < 0.5:
                 derive(d, None, max_window=max(4, length // 4))
+            if rng.random() < 0.5:
+                # the same source feeds a second derivation, and is looked
+                # at again afterwards
+                derive(src, rec_sr, max_window=max(4, length // 2))
+            if rng.random() < 0.5:
+                ops.append({"op": "recheck", "src": src})
         elif pat == "fault" and cfg["faults"]:
             load_clip(r, rng.choice(["sf_open_error", "sf_read_error"]))
             load_clip(r)
@@ -883,6 +925,7 @@ CORE_PROBES = {
         "C15:spectrogram-fractional-window-or-hop",
         "C15:clip-vs-recording-compared",
         "C15:returned-array-modified-in-place",
+        "C15:earlier-array-rechecked",
         "C15:clip-starts-exactly-where-previous-ended",
         "file:truncated-payload",
         "file:grown",
